@@ -501,10 +501,18 @@ def prevKeys (name : Name) : List (Nat × List Fld) → List Key
 def flattenL {α : Type} (l : List (List α)) : List α := l.foldr (· ++ ·) []
 
 /-- `State.inputs_ind`: for every job the dictionary `"<node>.<field>" ↦ index into the upstream's final states`. -/
+def ownBlock : Option (List (List Nat) × List Key) → List (List (List Nat))
+  | some (e, _) => [e]
+  | none => []
+
+def ownKeyList : Option (List (List Nat) × List Key) → List Key
+  | some (_, k) => k
+  | none => []
+
 def inputsIndOf (name : Name) (prevs : List (Nat × List Fld)) (own : Option (List (List Nat) × List Key)) :
     List (Dict Key) :=
-  let blocks := prevBlocks true prevs ++ (match own with | some (e, _) => [e] | none => [])
-  let keys := prevKeys name prevs ++ (match own with | some (_, k) => k | none => [])
+  let blocks := prevBlocks true prevs ++ ownBlock own
+  let keys := prevKeys name prevs ++ ownKeyList own
   if blocks.isEmpty then [] else (cart blocks).map fun t => mkDict keys (flattenL t)
 
 def sizeOf (nodes : List Node) (k : Key) : Nat :=
@@ -593,8 +601,8 @@ def runStateful (nodes : List Node) (sts : Sts) (rs : Ress) (nd : Node) (s : St)
   -- prepare_states_ind: product of the upstream final enumerations and the own enumeration
   let rus := s.prev.map rs.get
   let own ← ownEnum size s.cur
-  let blocks := rus.map (·.indFinal) ++ (match own with | some (e, _) => [e] | none => [])
-  let keys := rus.flatMap (·.keysFinal) ++ (match own with | some (_, k) => k | none => [])
+  let blocks := rus.map (·.indFinal) ++ ownBlock own
+  let keys := rus.flatMap (·.keysFinal) ++ ownKeyList own
   let indL := (cart blocks).map flattenL
   let statesInd := indL.map (mkDict keys)
   let (indFinal, keysFinal, statesIndFinal) ←
